@@ -1,11 +1,13 @@
 (* Extraction of the executable models to OCaml (run by ocaml/modelrun.ml).
    Only ExtrOcamlBasic is used: N, Z, positive, nat stay extracted inductive datatypes. *)
 From Coq Require Import Extraction ExtrOcamlBasic.
-From AG Require Import Base.Prelude Base.Res Base.Bytes Codec.Trg.
+From AG Require Import Base.Prelude Base.Res Base.Bytes Codec.Trg Codec.Chrono Codec.Adc Ident.Tables.
 
 Extraction Language OCaml.
 Extraction Blacklist String List Int Z Str Unix Array Bytes Char.
 
 Extraction "model.ml"
   Base.Res.res
-  Codec.Trg.trg_decode Codec.Trg.trg_obs Codec.Trg.trg_encode.
+  Codec.Trg.trg_decode Codec.Trg.trg_obs Codec.Trg.trg_encode
+  Codec.Adc.adc_decode Ident.Tables.adc_macs Ident.Tables.pwb_macs Ident.Tables.pwb_devices
+  Codec.Chrono.cb_fifo Codec.Chrono.cb_feed Codec.Chrono.entry_obs.
